@@ -19,6 +19,7 @@
   `c03` stream: the value found in the real `.ui` is judged against `Spec.ConstSem.eval` of the source expression.
 -/
 import QV.Proofs.ConstFold
+import QV.Proofs.ConstWalk
 import QV.Proofs.Literal
 
 namespace QV.Props.C03
@@ -161,5 +162,79 @@ def dummyFloatOps : FloatOps where
   le := fun _ _ => true
 
 example : binary dummyFloatOps .div (.int 1) (.int 0) = .undefined "division by zero" := by decide
+
+/-! ## END-TO-END ON CONSTANT EXPRESSIONS (section appended by the C01 helper; proofs in QV.Proofs.ConstWalk)
+
+  Fragment  `ConstFrag ::= integer | true | false | float | string | null | unary-op ConstFrag | ConstFrag ⊕ ConstFrag`
+  (⊕ every binary operator TOKEN except `&&` and `||`, unary-op every unary token; tokens the language lacks — `**`, `>>>`,
+  `??`, `instanceof`, `in`, `typeof`, `void`, `delete` — are refused by the walk).  The per-operator theorems above are
+  composed over the monadic AST walk (Model/Walk.lean `walkExpr`) by induction on the expression. -/
+
+open QV.Proofs.ConstWalk in
+/-- (a) a successful `walk_expr` on the fragment returns `.item (.const c)`, leaves the walk state untouched — no
+    statement, no local, no diagnostic —, `c` lies within 64 bits and `c` is the denotation of the expression -/
+theorem walk_const_sound (wc : Ctx) (e : Expr) (hf : ConstFrag e) (s s' : WState) (i : QV.Model.Inter)
+    (h : (walkExpr wc e).run s = (some i, s')) :
+    s' = s ∧ ∃ c, i = .item (.const c) ∧ inRange c ∧ eval wc.F e = .val (valOf c) :=
+  QV.Proofs.ConstWalk.walk_const_sound wc e hf s s' i h
+
+open QV.Proofs.ConstWalk in
+/-- (b) an expression of the fragment without a value (64-bit overflow, division by zero, negative or too large shift
+    count, integer literal ≥ 2^63, in any sub-expression) is refused: the walk fails, the builder is untouched (no code),
+    at least one diagnostic is added -/
+theorem walk_const_rejects_undefined (wc : Ctx) (e : Expr) (hf : ConstFrag e) (w : String)
+    (hu : eval wc.F e = .undefined w) (s : WState) :
+    ∃ s', (walkExpr wc e).run s = (none, s') ∧ s'.b = s.b ∧ s'.locals = s.locals ∧
+      ∃ d ds, s'.diags = s.diags ++ d :: ds :=
+  QV.Proofs.ConstWalk.walk_const_rejects_undefined wc e hf w hu s
+
+open QV.Proofs.ConstWalk in
+/-- every failure of the walk on the fragment (ill-typed operands included) is diagnosed and emits no code -/
+theorem walk_const_fails_with_diagnostic (wc : Ctx) (e : Expr) (hf : ConstFrag e) (s s' : WState)
+    (h : (walkExpr wc e).run s = (none, s')) :
+    s'.b = s.b ∧ s'.locals = s.locals ∧ ∃ d ds, s'.diags = s.diags ++ d :: ds :=
+  QV.Proofs.ConstWalk.walk_const_fails_with_diagnostic wc e hf s s' h
+
+/-- integer literals ≥ 2^63 have no value and are refused by `visit_integer` with the conversion diagnostic -/
+theorem walk_const_integer_too_large (wc : Ctx) (v : Nat) (hv : (2 : Int) ^ 63 ≤ (v : Int)) (s : WState) :
+    (∃ w, eval wc.F (.integer v) = .undefined w) ∧
+    (walkRvalue wc (.integer v)).run s = (none, { s with diags := s.diags ++ [ExprError.integerConversion.message] }) :=
+  QV.Proofs.ConstWalk.walk_const_integer_too_large wc v hv s
+
+open QV.Proofs.ConstWalk in
+/-- (c) the binding level: `tir::build` on the binding `e` (e in the fragment) either yields a body — then without
+    diagnostic and panic, and `evaluate_code` of the body (Model/Finalize.lean, tir/interpret.rs) is `evaluatedOf c` for a
+    constant `c` within 64 bits that is the denotation of `e` (`evaluatedOf`: bool/integer/float as themselves, a string
+    as an untranslated string, `null` as "no value") — or no body and at least one diagnostic.  So the value handed to
+    uigen's serialisation is the denoted one. -/
+theorem build_const_evaluates (wc : Ctx) (e : Expr) (hf : ConstFrag e) :
+    (∀ code, (build wc false (.stmt (.expr e))).code = some code →
+      (build wc false (.stmt (.expr e))).diags = [] ∧ (build wc false (.stmt (.expr e))).panic = none ∧
+      ∃ c, inRange c ∧ eval wc.F e = .val (valOf c) ∧ evaluateCode wc.env code = .value (evaluatedOf c)) ∧
+    ((build wc false (.stmt (.expr e))).code = none → (build wc false (.stmt (.expr e))).diags ≠ []) :=
+  QV.Proofs.ConstWalk.build_const wc e hf
+
+open QV.Proofs.ConstWalk in
+/-- the evaluated value denotes the constant (everything but `null`, which has no evaluated value, and the empty list,
+    which the fragment never produces) -/
+theorem evaluated_denotes (c : ConstantValue) (hn : c ≠ .nullPointer) (he : c ≠ .emptyList) :
+    (evaluatedOf c).bind denoted = some (valOf c) :=
+  QV.Proofs.ConstWalk.denoted_evaluatedOf c hn he
+
+open QV.Proofs.ConstWalk in
+/-- a binding of the fragment without a value is not built and is diagnosed -/
+theorem build_const_rejects_undefined (wc : Ctx) (e : Expr) (hf : ConstFrag e) (w : String)
+    (hu : eval wc.F e = .undefined w) :
+    (build wc false (.stmt (.expr e))).code = none ∧ (build wc false (.stmt (.expr e))).diags ≠ [] :=
+  QV.Proofs.ConstWalk.build_const_rejects_undefined wc e hf w hu
+
+open QV.Proofs.ConstWalk in
+/-- non-vacuity: `-(1 << 62) * 2 - 1 < 0.5` is not well typed but IS in the fragment; `(3 + 4) % -2` is, and has the value 1 -/
+example : ConstFrag (.binary .rem (.binary .add (.integer 3) (.integer 4)) (.unary .minus (.integer 2))) :=
+  .binary _ _ _ (by intro l h; cases h) (.binary _ _ _ (by intro l h; cases h) (.int 3) (.int 4)) (.unary _ _ (.int 2))
+
+example (F : FloatOps) :
+    eval F (.binary .rem (.binary .add (.integer 3) (.integer 4)) (.unary .minus (.integer 2))) = .val (.int 1) := by
+  rfl
 
 end QV.Props.C03
